@@ -47,6 +47,7 @@ theorem start_GI {s : BSt} (h : Start s) : GI s := by
     ctxReg := fun a x i hx => by rw [hact] at hx; cases hx
     ctxInj := fun a b x y i hx => by rw [hact] at hx; cases hx
     pend := fun a x st hx => by rw [hact] at hx; cases hx
+    capOK := fun i hi => by rw [h.ths] at hi; cases hi
     ord := fun _ _ _ => {
       popSorted := by rw [h.popLog]; exact List.Pairwise.nil
       above := fun p hp => by rw [h.popLog] at hp; cases hp
